@@ -128,6 +128,19 @@ class Direction:
             del self.msgs[:k]
             return k
 
+    def deliver_frame(self):
+        """feed exactly the next whole frame (tcp: its length-prefixed bytes; msg: one message)"""
+        if self.cut is not None or getattr(self.world, 'silent', False):
+            return 0
+        if self.mode != 'tcp':
+            return self.deliver(1)
+        if len(self.buf) < 3:
+            return 0
+        ln = int.from_bytes(self.buf[:3], 'big')
+        if len(self.buf) < 3 + ln:
+            return self.deliver(None)
+        return self.deliver(3 + ln)
+
     def inject(self, data):
         """scripted peer: put raw bytes (tcp) / one message (msg) on the link without any sender endpoint"""
         if self.mode == 'tcp':
